@@ -734,7 +734,9 @@ int reb_collision_resolve_hardsphere(struct reb_simulation* const r, struct reb_
 #ifdef MPI
     if (isloc==1){
 #endif // MPI
-    const double p2pf = p1.m/(p1.m+p2.m);
+    // Two massless (test) particles: 0/0 would turn both velocities into NaN. They share the impulse equally.
+    const double msum = p1.m+p2.m;
+    const double p2pf = (msum!=0.) ? p1.m/msum : 0.5;
     particles[c.p2].vx -=    p2pf*dvx2n;
     particles[c.p2].vy -=    p2pf*dvy2nn;
     particles[c.p2].vz -=    p2pf*dvz2nn;
@@ -742,7 +744,7 @@ int reb_collision_resolve_hardsphere(struct reb_simulation* const r, struct reb_
 #ifdef MPI
     }
 #endif // MPI
-    const double p1pf = p2.m/(p1.m+p2.m);
+    const double p1pf = (msum!=0.) ? p2.m/msum : 0.5;
     particles[c.p1].vx +=    p1pf*dvx2n; 
     particles[c.p1].vy +=    p1pf*dvy2nn; 
     particles[c.p1].vz +=    p1pf*dvz2nn; 
